@@ -132,6 +132,21 @@ def check(rep: Report, ctx: Ctx) -> None:
                   "order equals time order and the microsecond survives")
     rep.ob("R16.4", "literal Z suffix", fmt.endswith("Z"), fi=fmt_fn,
            node=_return_stmt(fmt_fn.node), detail=f"pattern {fmt!r}")
+    # a formatter memoised on a datetime argument returns the string of an
+    # *equal* datetime: aware datetimes compare / hash by instant, whatever
+    # their tzinfo, while strftime prints the zone's wall clock
+    for f in (to_ns, to_str, fmt_fn):
+        memo = [d for d in f.decorators if "cache" in d.lower()]
+        dt_params = [a.arg for a in f.node.args.args if a.annotation is not
+                     None and unparse(a.annotation).endswith("datetime")]
+        if memo:
+            rep.ob("R16.4", f"{f.name} is not memoised on a datetime",
+                   not dt_params, fi=f, node=f.node,
+                   detail=f"@{memo[0]} with parameter(s) {dt_params}: the "
+                          "result for a UTC datetime can be the cached "
+                          "rendering of the same instant in another zone"
+                          if dt_params else f"@{memo[0]} on value-typed "
+                          "parameters only")
     # reader side: the Z must be stripped (or understood) before parsing
     reader_ok, how = _reader_parses(to_ns.node)
     rep.ob("R16.4", "reader strips the suffix and parses ISO with fraction",
